@@ -811,7 +811,7 @@ func TestVerif_C01_RecordShape(t *testing.T) {
 	shard, shards := kit.Shard()
 	r := kit.NewResult(t, "c01-record-shape", seed, "seeded histories on a barrier over a probe store (transactional / plain store x root / namespace barrier x with / without seal-key record): puts through barrier, views, sub-views, transactions, view transactions, multi-write transactions and the Encryptor API, of empty / 1-byte / block-edge / binary / JSON / record-lookalike / large values, under format version 2 and legacy version 1, across key terms produced by Rotate, with RotateRootKey, CreateUpgrade and seal+unseal in between; after every put the stored bytes are opened with crypto/aes+cipher.NewGCM using the keyring recovered from the store with the root key: header term = active term, version as configured (2 by default), exact length, opens only with the storage key as additional data (not with empty / neighbouring / other keys, not under other term keys or the root key), no 8-byte plaintext fragment, fresh nonce; keyring and root-key records are opened with the root key / active key; at the end the whole store is audited. A record check is non-trivial when the value is non-empty; distinct = (config, how, version, term, value shape)")
 	defer r.Write(t)
-	nHist := kit.N(12, 96)
+	nHist := kit.N(12, 360)
 	steps := kit.N(70, 160)
 	big := kit.N(64<<10, 1<<20)
 	for h := 0; h < nHist; h++ {
@@ -952,9 +952,9 @@ func TestVerif_C01_RecordShape(t *testing.T) {
 		}
 		r.Count("histories", 1)
 	}
-	r.Require("records_checked", int64(kit.N(300, 3000)/shards))
-	r.Require("records_opened_independently", int64(kit.N(300, 3000)/shards))
-	r.Require("binding_negative_checks", int64(kit.N(1000, 10000)/shards))
+	r.Require("records_checked", int64(kit.N(300, 20000)/shards))
+	r.Require("records_opened_independently", int64(kit.N(300, 20000)/shards))
+	r.Require("binding_negative_checks", int64(kit.N(1000, 100000)/shards))
 	r.Require("records_v1", 5)
 	r.Require("records_after_rotation", 30)
 	r.Require("records_how_tx", 5)
@@ -1271,8 +1271,8 @@ func TestVerif_C01_Tamper(t *testing.T) {
 	shard, shards := kit.Shard()
 	r := kit.NewResult(t, "c01-tamper", seed, "for every record of a deterministic record set (4 store/barrier configurations x both format versions x key terms from Rotate x 7 write front doors x 14 value shapes): every single-bit flip (all bits up to 512 B, header/nonce/tag/edges + sampled body bits above), byte substitutions, every truncation length, head truncations, 1-3/16 appended bytes and self-concatenation, every term / version header rewrite (neighbouring, live, zero, huge, unknown), blanked nonce/tag/body, the plaintext itself (bare / behind the header), forged well-formed records under attacker keys, splices with other records, and transplants to every other live key and to fresh look-alike keys; each image is planted in the physical store and read through barrier.Get, view, sub-view, read-only tx, read-write tx, view tx and the Decrypt API. Expected: an error (never a panic, never 'absent', never a value) - except a transplanted legacy v1 record, which may return its value. Non-trivial = image differs from the stored bytes; distinct = (config, record, mutation class)")
 	defer r.Write(t)
-	nRec := kit.N(16, 150)
-	nTerms := kit.N(3, 6)
+	nRec := kit.N(24, 600)
+	nTerms := kit.N(3, 8)
 	big := kit.N(48<<10, 512<<10)
 	for cfg := range c01Configs {
 		rng := kit.NewRand(seed, uint64(2000+cfg))
@@ -1418,7 +1418,7 @@ func TestVerif_C01_Tamper(t *testing.T) {
 			e.tamperMeta(t, r, caseID, kit.NewRand(seed, uint64(9000+cfg)))
 		}
 	}
-	r.Require("records_tampered", int64(kit.N(48, 400)/shards))
+	r.Require("records_tampered", int64(kit.N(80, 2000)/shards))
 	r.Require("records_tampered_v1", 4)
 	r.Require("records_tampered_v2", 12)
 	r.Require("records_tampered_term2", 2)
